@@ -245,7 +245,29 @@ def compare(case, impl, model):
             if mj >= len(model):
                 return "op %d: model produced too few entries" % i
             m_consults, m_snap, m_err = [list(c) for c in model[mj][0]], _snap(model[mj][1]), model[mj][2]
+            m_cands = model[mj][3] if len(model[mj]) > 3 else []
             mj += 1
+            # background rotation: the snapshot taken right after the call returned (rotation thread
+            # possibly still running) must be one of the directories the background-rotation MODEL
+            # (coq/Model/RollingBg.v) can be in at that moment
+            if bg and m_cands and len(ent) > 4 and ent[4] and o[0] in (0, 1):
+                def canon(l):
+                    return sorted((k_, idx if k_ == 1 else 0, bytes(b)) for k_, idx, b in l if k_ in (0, 1, 3))
+                pend = canon(ent[4])
+                cands = [canon(cd) for cd in m_cands]
+                ok = pend in cands
+                if not ok and roller[0] == 1 and len(roller) > 3 and roller[3]:
+                    # gzip: the archive is written completely before the temp file is removed
+                    temps = [e for e in pend if e[0] == 3]
+                    rest_ = [e for e in pend if e[0] != 3]
+                    if len(temps) == 1 and rest_ == cands[-1] and (1, base, temps[0][2]) in rest_:
+                        ok = True
+                STATS["pending_vs_bg_model"] = STATS.get("pending_vs_bg_model", 0) + 1
+                if pend != cands[-1]:
+                    STATS["pending_midflight_states"] = STATS.get("pending_midflight_states", 0) + 1
+                if not ok:
+                    return ("op %d: directory right after the call (background rotation possibly running) %r is none of "
+                            "the %d states of the background-rotation model %r" % (i, pend, len(cands), cands))
             new_recs = [rec_of(o[1])] if o[0] in (0, 5, 7) else []
             if o[0] == 7 and m_err and is_pre_trigger(trig):
                 new_recs = []          # pre-processing: the early Err return skipped the write
